@@ -34,7 +34,8 @@ PROBES = ["op_on_step_deadline", "op_mid_fade", "late_step_after_stall", "back_o
           "update_speed", "stop_in_sync_wait", "replace_by_key", "replace_in_sync", "token_light", "manual_advance",
           "hold_step", "request_after_end", "resume_not_paused", "silent_step", "first_step_offset",
           "start_paused", "advance_while_paused", "coil_released", "default_fade_light", "default_sync_nonzero",
-          "explicit_sync0_vs_default", "sync_from_default", "explicit_sync_vs_default"]
+          "explicit_sync0_vs_default", "sync_from_default", "explicit_sync_vs_default", "replay_in_sync_wait",
+          "fade_anchor_checked", "update_manual_advance"]
 REAL = ["mpf.assets.show.Show/RunningShow", "mpf.core.show_controller.ShowController",
         "mpf.config_players.show_player/light_player/coil_player/event_player", "mpf.core.config_player.ConfigPlayer",
         "mpf.devices.light.Light (stack, fades)", "mpf.devices.driver.Driver", "mpf.core.events.EventManager",
@@ -69,6 +70,7 @@ TECHNIQUE = "deterministic simulation, generated shows + control histories, exac
 #   stack_mismatch     light stacks differ from "base + what the live shows set"
 #   coil_left_on       a coil enabled by an ended show is still on
 #   hw_not_restored    hardware brightness / coil state at the end differs from the state before any show ran
+#   fade_anchor        a fade started by a step does not run from the step's instant for the configured time
 #   crash              exception out of a legal request
 
 SPEEDS = ["1", "0.1", "0.25", "0.5", "1.5", "2", "3.7", "7.3"]
@@ -280,10 +282,18 @@ def plan(ch, tier):
     ops = []
     names = sorted(shows)
     paused = []           # plan-time guess of the paused slots (bias only; the run decides)
+    manual_slots = []     # plan-time guess of the slots holding a manual_advance show (bias only)
+    force_next = None     # (kind, slot): the same play request once more, right after a plain synchronised play
     for j in range(nops):
         slot = ch.weighted("slot", [(0, 4), (1, 2), (2, 1)])
         if j == 0:
             kind = "play"
+        elif force_next is not None:
+            kind, slot = force_next
+            force_next = None
+        elif manual_slots and ch.flag("manual_bias", 0.45):
+            kind = ch.weighted("op_manual", [("advance", 5), ("step_back", 2), ("update", 1), ("wait", 1)])
+            slot = ch.pick("manual_slot", manual_slots)
         elif paused and ch.flag("resume_bias", 0.5):
             kind = ch.weighted("op_paused", [("resume", 5), ("advance", 1), ("step_back", 1), ("update", 1), ("stop", 1)])
             slot = ch.pick("paused_slot", paused)
@@ -303,6 +313,10 @@ def plan(ch, tier):
         w = ch.weighted("when", [("rel", 5), ("deadline", 4)])
         if kind == "wait":
             op["when"] = ["rel", ch.pick("waitdt", [1.0, 2.5, 0.7] if not fast else [1.0, 2.0, 3.0])]
+        elif kind == "replay":
+            op["when"] = ["rel", ch.pick("replay_dt", [0.0, 0.001, 0.01, 0.03, 0.05, 0.1])]
+            if ch.flag("replay_again", 0.25):
+                force_next = ("replay", slot)
         elif w == "rel" or j == 0:
             op["when"] = ["rel", ch.pick("dt", [0.0, 0.001, 0.01, 0.05, 0.1, 0.25, 0.37, 0.5, 1.0, 0.03, 0.0])]
         else:
@@ -326,7 +340,7 @@ def plan(ch, tier):
             op["sync_arg"] = ch.weighted("sync", [(None, 4), (0, 3), (100, 1), (250, 1), (500, 1), (1000, 0.5)])
             op["sync_ms"] = default_sync if op["sync_arg"] is None else op["sync_arg"]
             op["priority"] = ch.weighted("prio", [(0, 3), (1, 1), (3, 1), (7, 1), (10, 1)])
-            op["manual_advance"] = ch.flag("manual", 0.07) and not (fast and j == 0)
+            op["manual_advance"] = ch.flag("manual", 0.12) and not (fast and j == 0)
             op["start_running"] = not ch.flag("start_paused", 0.08) or (fast and j == 0)
             tok = {}
             if "light" in meta[name]["uses"]:
@@ -336,8 +350,22 @@ def plan(ch, tier):
             op["tokens"] = tok
             if op["sync_ms"] and j > 0 and ch.flag("on_sync_multiple", 0.3):
                 op["when"] = ["sync", ch.choice("sync_k", 2)]      # request exactly on a multiple of sync_ms
+            # plain: a show_player entry without events_when_played/stopped - only then the show_player may
+            # recognise a repeated identical request ("nothing to do" / "advance") instead of replacing the show
+            op["plain"] = slot_via[slot] == "player" and ch.flag("plain", 0.35)
+            if op["plain"] and op["sync_ms"] and ch.flag("replay", 0.7):
+                force_next = ("replay", slot)
+            if op["manual_advance"]:
+                if slot not in manual_slots:
+                    manual_slots.append(slot)
+            elif slot in manual_slots:
+                manual_slots.remove(slot)
         elif kind == "update":
             op["speed_idx"] = ch.choice("uspeed", len(SPEEDS))
+            # API slots only: switch manual_advance on/off as well
+            op["manual"] = ch.weighted("umanual", [(None, 6), (True, 1.5), (False, 1)])
+        elif kind == "stop" and slot in manual_slots:
+            manual_slots.remove(slot)
         ops.append(op)
     base = {}
     for ln in ("l1", "l2", "l3", "l4"):
@@ -412,6 +440,16 @@ class Inst:
         self.end_ambiguous = False
         self.pause_unknown = False
         self.must_start_t = None
+        self.plain = bool(op.get("plain"))   # no events_when_played / events_when_stopped configured
+        self.j = None                # index of the play request (its show_player event can be posted again)
+        self.start_idx = None
+        self.start_step = 1
+        self.shadow = []             # contexts of RunningShows this instance replaced by an identical request
+        self.dup_start = 0           # replaced sync-waiters that may still run the start step at the start instant
+        self.start_t = None
+        self.start_label = None
+        self.tick_fades = []         # (light, fade seconds) of the step executed last
+        self.sync_ms = 0
 
     def live(self):
         return self.status in ("sync", "running", "paused")
@@ -437,6 +475,8 @@ def execute(ctx, plan):     # noqa: C901  (one scenario, kept in one place on pu
             if _sync_arg(op) is not None:
                 e["sync_ms"] = _sync_arg(op)
             for kd in KINDS:
+                if op.get("plain") and kd in ("played", "stopped"):
+                    continue
                 e["events_when_" + kd] = "c17_%s_%s" % (tag, kd)
             sp["c17op_play_%d" % j] = {op["show"]: e}
     for k in range(NSLOTS):
@@ -533,10 +573,14 @@ def execute(ctx, plan):     # noqa: C901  (one scenario, kept in one place on pu
         return [key]
 
     def apply_effects(inst, st):
+        inst.tick_fades = []
         for key, col, _fade in st["lights"]:
             if col == "(color)":
                 col = inst.tokens["color"]
             for ln in resolve(inst, key):
+                if col != "stop" and _fade:
+                    f = str(_fade).lower()
+                    inst.tick_fades.append((ln, Fraction(f[:-2] if f.endswith("ms") else f) / 1000))
                 if key == "(light)":
                     ctx.probe("token_light")
                 if col == "stop":
@@ -565,7 +609,8 @@ def execute(ctx, plan):     # noqa: C901  (one scenario, kept in one place on pu
                 ctx.probe("loop_wrap")
             else:
                 content["completed"] += 1
-                content["stopped"] += 1
+                if not inst.plain:
+                    content["stopped"] += 1
                 ctx.probe("completed")
                 end(inst, "complete", t)
                 return content, None
@@ -595,6 +640,9 @@ def execute(ctx, plan):     # noqa: C901  (one scenario, kept in one place on pu
         o = inst.open
         if o is None:
             return
+        if state.get("discard"):
+            inst.open = None
+            return
         missing = sorted(x for x, c in o["need"].items() if c > 0)
         inst.open = None
         if missing:
@@ -610,6 +658,8 @@ def execute(ctx, plan):     # noqa: C901  (one scenario, kept in one place on pu
         inst.k = 0
         if inst.status != "ended":
             inst.cands = next_cands(inst, [Fraction(t)], dur, pause_after)
+            if inst.tick_fades:
+                loop.call_soon(check_fades, inst, inst.ticks, [Fraction(t)], t, list(inst.tick_fades))
 
     def optional(inst, t, names):
         o = inst.open
@@ -623,6 +673,8 @@ def execute(ctx, plan):     # noqa: C901  (one scenario, kept in one place on pu
         return "step" if x[:1] == "e" and x[1:].isdigit() else x
 
     def observe(t, name, kwargs):
+        if state.get("discard"):
+            return          # the case left the generated space: nothing is judged any more
         parts = name.split("_", 2)
         inst = insts.get(parts[1])
         if inst is None:
@@ -641,6 +693,12 @@ def execute(ctx, plan):     # noqa: C901  (one scenario, kept in one place on pu
             if o["opt"].get(x, 0) > 0:
                 o["opt"][x] -= 1
                 return
+        # an identical play request repeated during the sync wait replaced a RunningShow that was itself armed for
+        # the same sync point: it may still run the start step there before it is stopped (same instant, same step)
+        if inst.dup_start > 0 and inst.start_t == t and x == inst.start_label and inst.ticks == 1:
+            inst.dup_start -= 1
+            ctx.probe("replay_double_start")
+            return
         # replacement through the show_player with sync_ms: the old show stops when the new one starts
         if x == "stopped" and inst.replaced_by is not None and inst.live() and inst.replaced_by.status == "sync" \
                 and completion_due(inst, t) and start_plausible(inst.replaced_by, t):
@@ -691,19 +749,31 @@ def execute(ctx, plan):     # noqa: C901  (one scenario, kept in one place on pu
         # a timed tick: skip silent steps (nothing observable), then the tick must contain x
         cands = list(inst.cands)
         extra = []
+        start_tick = False
         if inst.status == "sync":
-            extra = ["played"]
+            start_tick = True
+            extra = [] if inst.plain else ["played"]
             inst.status = "running"
             inst.started = True
-            if inst.must_start_t is not None and inst.must_start_t != t:
+            if inst.must_start_t is not None and inst.must_start_t != t and \
+                    (extra or inst.steps[inst.idx % inst.n]["label"]):
+                # (without a `played` event and with a silent first step the start itself is not observable)
                 ctx.violation("step_time", sig(inst, "replace_start"), "instance %s replaced its predecessor at %.9f "
                               "but started at %.9f" % (inst.tag, inst.must_start_t, t))
+            if inst.pending_old is not None and inst.pending_old.live() and inst.pending_old.plain:
+                # no `stopped` event configured: the replaced show goes silently at this instant
+                old = inst.pending_old
+                close_open(old)
+                old.last_op = "replaced"
+                old.replaced_by = None
+                inst.pending_old = None
+                end(old, "stop", t)
             if inst.pending_old is not None and inst.pending_old.live():
                 # the old show had to stop first (its `stopped` precedes our first event)
                 ctx.violation("event_missing", sig(inst.pending_old, "stopped"),
                               "instance %s was to be replaced by %s at its synchronised start %.9f but did not stop"
                               % (inst.pending_old.tag, inst.tag, t))
-        start_tick = bool(extra)
+        first_idx = inst.idx
         guard = 0
         while True:
             guard += 1
@@ -729,6 +799,11 @@ def execute(ctx, plan):     # noqa: C901  (one scenario, kept in one place on pu
         content[x] -= 1
         inst.open = {"t": t, "need": content, "opt": Counter()}
         inst.k += 1
+        if start_tick:
+            inst.start_t = t
+            inst.start_label = x if inst.idx == first_idx + 1 else None
+        if inst.tick_fades and inst.status != "ended" and (inst.ticks <= 40 or inst.ticks % 16 == 0):
+            loop.call_soon(check_fades, inst, inst.ticks, list(ok), t, list(inst.tick_fades))
         if inst.status != "ended":
             pause_after = start_tick and not inst.start_running
             inst.cands = next_cands(inst, ok, dur, pause_after)
@@ -776,7 +851,7 @@ def execute(ctx, plan):     # noqa: C901  (one scenario, kept in one place on pu
             if idx >= inst.n or idx < 0:
                 return
             st = inst.steps[idx]
-            if st["label"] is not None or rs.next_step_index == idx or None in inst.cands:
+            if st["label"] is not None or rs.next_step_index <= idx or None in inst.cands:
                 return
             if min(inst.cands) > Fraction(now) + Fraction(1, 10 ** 9) * (inst.k + 2):
                 ctx.violation("step_time", sig(inst, "early_silent"), "instance %s: silent step %d nominally at %s "
@@ -832,8 +907,12 @@ def execute(ctx, plan):     # noqa: C901  (one scenario, kept in one place on pu
         if inst.status not in ("sync", "running") or not inst.cands or None in inst.cands:
             return None
         T = max(inst.cands)
-        if inst.status == "sync":
-            return T
+        if inst.status == "sync" and not inst.plain:
+            return T          # `played` is observable
+        if inst.status == "sync" and not inst.start_running:
+            # no `played` event and the show pauses after its first step: only that step can tell
+            st0 = inst.steps[inst.idx % inst.n]
+            return T if st0["label"] else None
         idx = inst.idx
         for _ in range(2 * inst.n + 4):
             if idx >= inst.n:
@@ -848,6 +927,8 @@ def execute(ctx, plan):     # noqa: C901  (one scenario, kept in one place on pu
         return None
 
     def check_missed(now):
+        if state.get("discard"):
+            return
         bound = now
         if landing(now):
             bound = loop.stall_log[-1][0]
@@ -871,6 +952,8 @@ def execute(ctx, plan):     # noqa: C901  (one scenario, kept in one place on pu
         return exp
 
     def check_stacks(now, why):
+        if state.get("discard"):
+            return 0
         nstack = 0
         for ln in light_names:
             light = m.lights[ln]
@@ -887,7 +970,16 @@ def execute(ctx, plan):     # noqa: C901  (one scenario, kept in one place on pu
                     if owner and lim == 0.0 and not owner[0].live() and now > owner[0].end_t + 0.25:
                         ctx.violation("residue_after_end", "fadeout:%s" % ln, "light %s keeps fade-out %r" % (ln, e))
                     continue
-                got[e.key] = (e.priority, tuple(e.dest_color.rgb))
+                k2 = e.key
+                for i in order:
+                    if i.shadow and i.live() and any(k2 == sh + ".light_player" for sh in i.shadow):
+                        # a RunningShow replaced by an identical request: transiently stands in for its successor
+                        k2 = i.ctx_key + ".light_player"
+                        if k2 in got:
+                            k2 = None
+                        break
+                if k2 is not None:
+                    got[k2] = (e.priority, tuple(e.dest_color.rgb))
             if got:
                 nstack += 1
             ctx.log("stack", ln, sorted(got.items()), t=now)
@@ -910,7 +1002,31 @@ def execute(ctx, plan):     # noqa: C901  (one scenario, kept in one place on pu
                                   % (ln, key, got[key], exp[key], why, now))
         return nstack
 
+    def check_fades(inst, tickno, anchors, t_obs, fades):
+        """A step runs at its instant: a fade it starts runs from that instant (nominal step time; for a step that
+        ran late after a stall anything between nominal and actual is accepted) and lasts the configured time."""
+        if inst.ticks != tickno or not inst.live() or state.get("discard"):
+            return          # a later step has already replaced the entries
+        key = inst.ctx_key + ".light_player"
+        tol = 1e-9 * (inst.k + 2)
+        for ln, fade in fades:
+            ent = [e for e in m.lights[ln].stack if e.key == key and e.dest_color is not None]
+            if not ent or not ent[0].dest_time:
+                continue
+            e = ent[0]
+            ctx.probe("fade_anchor_checked")
+            st, dt = Fraction(e.start_time), Fraction(e.dest_time)
+            ok = any(abs(st - a) <= tol for a in anchors) or (min(anchors) - tol <= st <= Fraction(t_obs) + tol)
+            if not ok or abs(dt - st - fade) > tol:
+                ctx.violation("fade_anchor", sig(inst, "manual" if inst.manual else "timed"),
+                              "instance %s (%s): step %d executed at %.9f (nominal %s) started a %s s fade on %s, but "
+                              "the light fades from %.9f to %.9f" % (inst.tag, inst.name, tickno, t_obs,
+                                                                     [float(a) for a in anchors], float(fade), ln,
+                                                                     e.start_time, e.dest_time))
+
     def check_coils(inst, now):
+        if state.get("discard"):
+            return
         for coil in sorted(inst.coils):
             if any(o is not inst and o.live() and coil in o.coils for o in order):
                 continue       # relaxation: a coil has no stack; shared between live shows -> unspecified
@@ -938,6 +1054,8 @@ def execute(ctx, plan):     # noqa: C901  (one scenario, kept in one place on pu
             ctx.probe("stop_in_sync_wait")
             inst.open = {"t": t, "need": Counter(), "opt": Counter({"stopped": 1})}
             inst.counts["stopped"] -= 0
+        elif inst.plain:
+            inst.open = {"t": t, "need": Counter(), "opt": Counter()}
         else:
             inst.open = {"t": t, "need": Counter({"stopped": 1}), "opt": Counter()}
         old = inst.pending_old
@@ -948,6 +1066,33 @@ def execute(ctx, plan):     # noqa: C901  (one scenario, kept in one place on pu
             old.last_op = "replaced"
             m_stop(old, t)
 
+    def sync_cands(sync_ms, t):
+        period = Fraction(sync_ms, 1000)
+        ft = Fraction(t)
+        q = ft / period
+        T0 = (q.numerator // q.denominator) * period
+        if T0 < ft:
+            T0 += period
+        cands = [T0]
+        if T0 - ft <= Fraction(1, 10 ** 9):
+            cands.append(T0 + period)
+            ctx.probe("sync_boundary")
+        # float noise just above a multiple
+        elif ft - (T0 - period) <= Fraction(1, 10 ** 9):
+            cands.append(T0 - period)
+        return cands
+
+    def m_replay(inst, t):
+        """The very same show_player play request again (same key, equal config, no played/stopped events).
+        Statement: the show honours its sync point - whatever the player does with the repeated request (keep the
+        waiting show, or replace it by an identical one waiting for the same point), the first step runs at a
+        multiple of sync_ms, not before.  Only generated while the show still waits for its sync point."""
+        ctx.probe("replay_in_sync_wait")
+        inst.last_op = "replay"
+        for c in sync_cands(inst.sync_ms, t):
+            if c not in inst.cands:
+                inst.cands.append(c)
+
     def m_play(inst, op, t):
         ss = op["start_step"]
         if ss > 0:
@@ -955,6 +1100,8 @@ def execute(ctx, plan):     # noqa: C901  (one scenario, kept in one place on pu
         else:
             inst.idx = ss % inst.n
             ctx.probe("negative_start_step")
+        inst.start_idx = inst.idx
+        inst.start_step = ss
         nplays[0] += 1
         inst.ctx_key = "show_%d" % nplays[0]
         if inst.manual:
@@ -963,24 +1110,13 @@ def execute(ctx, plan):     # noqa: C901  (one scenario, kept in one place on pu
             # statement: "honouring ... sync": the start is delayed to the next multiple of sync_ms.
             # relaxation: a request exactly on a multiple may start at once or one period later.
             ctx.probe("sync_wait")
-            period = Fraction(op["sync_ms"], 1000)
-            ft = Fraction(t)
-            q = ft / period
-            T0 = (q.numerator // q.denominator) * period
-            if T0 < ft:
-                T0 += period
-            inst.cands = [T0]
-            if T0 - ft <= Fraction(1, 10 ** 9):
-                inst.cands.append(T0 + period)
-                ctx.probe("sync_boundary")
-            # float noise just above a multiple
-            elif ft - (T0 - period) <= Fraction(1, 10 ** 9):
-                inst.cands.append(T0 - period)
+            inst.sync_ms = op["sync_ms"]
+            inst.cands = sync_cands(op["sync_ms"], t)
             inst.status = "sync"
         else:
             inst.status = "running"
             inst.started = True
-            forced(inst, t, ["played"], pause_after=not op["start_running"])
+            forced(inst, t, [] if inst.plain else ["played"], pause_after=not op["start_running"])
             if not op["start_running"]:
                 inst.status = "paused"
         if not op["start_running"]:
@@ -1035,6 +1171,10 @@ def execute(ctx, plan):     # noqa: C901  (one scenario, kept in one place on pu
         elif kind == "update":
             ctx.probe("update_speed")
             inst.speed = Fraction(SPEEDS[op["speed_idx"]])
+            if inst.via == "api" and op.get("manual") is not None:
+                # from now on steps are (not) scheduled by time; a step that is already armed still runs
+                ctx.probe("update_manual_advance")
+                inst.manual = op["manual"]
             optional(inst, t, ["updated"])
 
     def has_timer(rs):
@@ -1141,7 +1281,7 @@ def execute(ctx, plan):     # noqa: C901  (one scenario, kept in one place on pu
         elif kind == "step_back":
             rs.step_back()
         elif kind == "update":
-            rs.update(speed=float(SPEEDS[op["speed_idx"]]))
+            rs.update(speed=float(SPEEDS[op["speed_idx"]]), manual_advance=op.get("manual"))
         # everything a request does happens synchronously
         close_open_keep_opt(cur)
         resolve_pause(cur)
@@ -1159,13 +1299,21 @@ def execute(ctx, plan):     # noqa: C901  (one scenario, kept in one place on pu
         t = loop.time()
         kind = op["op"]
         slot = op["slot"]
+        cur = slots.get(slot)
+        if kind == "replay":
+            if cur is None or not cur.plain or cur.status != "sync" or cur.j is None:
+                ctx.log("op", kind, "skipped", cur.status if cur else None, t=t)
+                return
+            evn = "c17op_play_%d" % cur.j
+            pending_player.append((evn, j, op))
+            sim.post(evn)
+            return
         if kind == "play":
             evn = "c17op_play_%d" % j
         elif kind == "update":
             evn = "c17op_update_%d_%d" % (slot, op["speed_idx"])
         else:
             evn = "c17op_%s_%d" % (kind, slot)
-        cur = slots.get(slot)
         if kind != "play":
             if cur is None:
                 ctx.log("op", kind, "noinst", t=t)
@@ -1193,8 +1341,18 @@ def execute(ctx, plan):     # noqa: C901  (one scenario, kept in one place on pu
             slot = op["slot"]
             cur = slots.get(slot)
             pre(kind, t)
+            if kind == "replay":
+                ctx.log("op", "replay", cur.tag, cur.status, "player", t=t)
+                if cur.status == "sync":
+                    m_replay(cur, t)
+                elif cur.live() and cur.start_step > 0 and cur.idx == cur.start_idx + 1 and cur.ticks == 1:
+                    pass        # it started meanwhile and still sits on its start step: "already there", nothing to do
+                else:
+                    state["discard"] = "repeated play request on a show that is past its start step"
+                return
             if kind == "play":
                 inst = new_inst(j, op)
+                inst.j = j
                 ctx.log("op", "play", inst.tag, op["show"], op["speed"], op["loops"], op["start_step"], op["sync_ms"],
                         op["priority"], "player", t=t)
                 if cur is not None and cur.live():
@@ -1231,7 +1389,23 @@ def execute(ctx, plan):     # noqa: C901  (one scenario, kept in one place on pu
             t = loop.time()
             _, j, op = pending_player.pop(0)
             cur = slots.get(op["slot"])
-            if cur is not None:
+            if cur is not None and op["op"] == "replay":
+                try:
+                    rs2 = m.show_player.instances["_global"]["show_player"].get("k%d" % cur.slot)
+                except (KeyError, AttributeError):
+                    rs2 = None
+                if rs2 is not None and rs2 is not cur.rs and cur.live():
+                    # the player replaced the waiting RunningShow by an identical one
+                    nplays[0] += 1
+                    if rs2.context != "show_%d" % nplays[0]:
+                        raise AssertionError("context bookkeeping (replay): %s vs show_%d" % (rs2.context, nplays[0]))
+                    cur.shadow.append(cur.ctx_key)
+                    cur.ctx_key = rs2.context
+                    cur.rs = rs2
+                    if cur.status == "sync":
+                        cur.dup_start += 1
+                close_open_keep_opt(cur)
+            elif cur is not None:
                 if op["op"] == "play":
                     cur.rs = sut_rs(cur)
                     if cur.rs is not None and cur.rs.context != cur.ctx_key:
@@ -1286,7 +1460,9 @@ def execute(ctx, plan):     # noqa: C901  (one scenario, kept in one place on pu
         j = idx[0]
         op = ops[j]
         idx[0] += 1
-        if op["op"] != "wait":
+        if op["op"] == "replay" and slot_via[op["slot"]] == "api":
+            ctx.log("op", "replay", "skipped", "api", t=loop.time())
+        elif op["op"] != "wait":
             if slot_via[op["slot"]] == "api":
                 api_request(j, op)
             else:
@@ -1346,10 +1522,12 @@ def execute(ctx, plan):     # noqa: C901  (one scenario, kept in one place on pu
     check_stacks(now, "end of run")
     for inst in order:
         if inst.started or inst.end_how:
-            if inst.started and inst.counts["played"] != 1:
+            if inst.plain:
+                pass
+            elif inst.started and inst.counts["played"] != 1:
                 ctx.violation("event_missing" if inst.counts["played"] == 0 else "event_twice", sig(inst, "played"),
                               "instance %s: played posted %d times" % (inst.tag, inst.counts["played"]))
-            if inst.started and inst.counts["stopped"] != 1:
+            if inst.started and not inst.plain and inst.counts["stopped"] != 1:
                 ctx.violation("event_missing" if inst.counts["stopped"] == 0 else "event_twice", sig(inst, "stopped"),
                               "instance %s: stopped posted %d times (ended by %s)"
                               % (inst.tag, inst.counts["stopped"], inst.end_how))
